@@ -29,6 +29,7 @@ LEVEL = "exploration"
 CHUNKS = 16
 ALPHA_FAMILY = 1e-9
 MAX_COMPARISONS = 1e5
+DECAY_TOL = 1e-4  # no-jump squared norm vs dense non-Hermitian evolution (TDVP at precision 1e-6, bond 64)
 BIAS = 1e-2  # TDVP error at precision 1e-6 + < 1 ns jump-time quantisation of the root search (calibrated, see evidence)
 RULE = (
     "One evaluation = one quantum-jump trajectory (own RNG stream) of a seeded case: 2-3 atoms (4 in thorough), 4-12 steps, each "
@@ -41,7 +42,7 @@ COMPONENTS = {
     "real": ["MPSBackend.run with n_trajectories=k", "NoisyMPSBackendImpl (effective Hamiltonian, jump search, jump selection)", "emu_base.jump_lindblad_operators", "TDVP numerics", "pulser sampling"],
     "stubbed": ["RNG seeding (random / numpy / torch)", "clock", "uuid", "reference: dense Lindblad model (scipy expm) with collapse operators from Pulser's definitions"],
 }
-PROBES = ["trajectory_with_jump", "relaxation", "dephasing", "depolarizing", "eff_noise_2x2", "eff_noise_3x3_leakage", "two_channels", "noise_model_from_device", "case_completed_all_chunks"]
+PROBES = ["trajectory_with_jump", "relaxation", "dephasing", "depolarizing", "eff_noise_2x2", "eff_noise_3x3_leakage", "two_channels", "noise_model_from_device", "no_jump_decay_compared", "case_completed_all_chunks"]
 ASSUMPTIONS = [
     f"statistical acceptance: |mean - model| <= sqrt(2 V ln(4/d)/K) + 7 ln(4/d)/(3(K-1)) + {BIAS} with d = {ALPHA_FAMILY}/{MAX_COMPARISONS:g} per comparison (Maurer-Pontil empirical Bernstein bound for values in [0,1]); family-wise false-alarm probability <= {ALPHA_FAMILY} per invocation for any VERIF_SEED, given the bias allowance",
     "bias allowance 1e-2 covers the solver's deterministic error (TDVP at precision 1e-6, jump time located to 1 ns); the largest |mean - model| seen is reported as calibration data",
@@ -143,6 +144,9 @@ def run_chunk(case: dict, tier: str, seeds: tuple, k: int, want_model: bool) -> 
     history: list[dict] = []
     captured: dict = {}
     jumps = [0]
+    history_len = [0]
+    jumps_at_start = [0]
+    decay: dict[int, list[tuple[float, float]]] = {}
     try:
         def setup(inc: Any, probe: Any) -> None:
             import emu_mps.mps_backend as mb
@@ -159,8 +163,27 @@ def run_chunk(case: dict, tier: str, seeds: tuple, k: int, want_model: bool) -> 
             def jb(*a: Any, **kw: Any) -> None:
                 jumps[0] += 1
 
-            wrap_method(inc.rb, mb.MPSBackend, "_run_from_sequence_data", before=before, after=after)
+            def step_done(impl: Any, *a: Any, **kw: Any) -> None:
+                # squared norm of the working state at a completed step of a trajectory that has not jumped yet
+                if history_len[0] == len(history) and jumps[0] == jumps_at_start[0]:
+                    if "ops" not in captured and hasattr(impl, "lindblad_ops"):
+                        try:
+                            captured["ops"] = [np.asarray(o.detach().cpu().numpy(), dtype=complex) for o in impl.lindblad_ops]
+                        except Exception:
+                            captured["ops"] = None
+                    try:
+                        decay.setdefault(len(history), []).append((float(impl.current_time), float(impl.state.norm()) ** 2))
+                    except Exception:
+                        pass
+
+            def before2(sequence_data: Any, config: Any, *a: Any, **kw: Any) -> Any:
+                history_len[0] = len(history)
+                jumps_at_start[0] = jumps[0]
+                return before(sequence_data, config, *a, **kw)
+
+            wrap_method(inc.rb, mb.MPSBackend, "_run_from_sequence_data", before=before2, after=after)
             wrap_method(inc.rb, mi.NoisyMPSBackendImpl, "do_random_quantum_jump", before=jb, required=False)
+            wrap_method(inc.rb, mi.NoisyMPSBackendImpl, "timestep_complete", before=step_done, required=False)
             norms.install(inc.rb)
 
         norms = M.NormProbe()
@@ -202,6 +225,28 @@ def run_chunk(case: dict, tier: str, seeds: tuple, k: int, want_model: bool) -> 
         seen = set()
         V = [v for v in V if not ((v["clause"], v["site"]) in seen or seen.add((v["clause"], v["site"])))]
         model = None
+        # ---- the no-jump decay: up to its first jump every trajectory carries the same deterministic squared norm
+        by_t: dict[float, float] = {}
+        for lst in decay.values():
+            for t, nrm2 in lst:
+                if t in by_t and abs(by_t[t] - nrm2) > 1e-9 and not spam:
+                    V.append({"clause": "C17.no-jump-norm-differs-between-trajectories", "site": case["kind"], "msg": f"two trajectories that have not jumped yet carry different squared norms at t={t} ns: {by_t[t]!r} vs {nrm2!r} :: {desc}"})
+                    break
+                by_t.setdefault(t, nrm2)
+        ops_ok = captured.get("ops") and all(o.shape == (case["d"], case["d"]) for o in captured["ops"])
+        if want_model and "data" in captured and not spam and by_t and ops_ok:
+            sd = captured["data"]
+            surv = dict(LB.survival(np.real(sd.omega.numpy()), np.real(sd.delta.numpy()), np.real(sd.phi.numpy()), lambda t: sd.interaction_matrix(t).numpy(), [float(x) for x in sd.target_times], captured["ops"], case["d"]))
+            worst = (0.0, None)
+            for t, nrm2 in sorted(by_t.items()):
+                m = min(surv.items(), key=lambda kv: abs(kv[0] - t))
+                if abs(m[0] - t) <= 1e-6 and abs(m[1] - nrm2) > worst[0]:
+                    worst = (abs(m[1] - nrm2), (t, nrm2, m[1]))
+            captured["decay_worst"] = worst[0]
+            captured["decay_points"] = len(by_t)
+            if worst[1] is not None and worst[0] > DECAY_TOL:
+                t, a_, b_ = worst[1]
+                V.append({"clause": "C17.no-jump-norm-decay", "site": case["kind"], "msg": f"squared norm of a trajectory that has not jumped yet is {a_:.6f} at t={t} ns; the no-jump evolution under H - (i/2) sum L^dagger L with the emulator's own jump operators L gives {b_:.6f} (difference {worst[0]:.2e} > {DECAY_TOL}): damping and jumps do not belong to the same set of collapse operators, so the trajectory average cannot converge to their master equation :: {desc}"})
         if want_model and "data" in captured and not spam:
             sd = captured["data"]
             mod = LB.evolve(
@@ -216,6 +261,8 @@ def run_chunk(case: dict, tier: str, seeds: tuple, k: int, want_model: bool) -> 
             "desc": desc,
             "n": len(history),
             "jumps": nj,
+            "decay_worst": captured.get("decay_worst"),
+            "decay_points": captured.get("decay_points", 0),
             "digest": world.log.digest() + hashlib.sha256(repr(sorted((k_, np.round(s[0], 10).tolist()) for k_, s in comps.items())).encode()).hexdigest()[:16],
         }
     finally:
@@ -237,6 +284,8 @@ def run_one(tape: Tape, tier: str, opts: dict) -> dict:
     nz = case["noise"]
     if case["delivery"] != "config":
         probes["noise_model_from_device"] = 1
+    if r.get("decay_points"):
+        probes["no_jump_decay_compared"] = int(r["decay_points"])
     for key, pn in (("relaxation_rate", "relaxation"), ("dephasing_rate", "dephasing"), ("depolarizing_rate", "depolarizing")):
         if nz.get(key):
             probes[pn] = 1
@@ -251,7 +300,7 @@ def run_one(tape: Tape, tier: str, opts: dict) -> dict:
         "probes": probes,
         "digest": r["digest"],
         "scenario": r["desc"],
-        "c17": {"case": case_id, "chunk": chunk, "sums": r["sums"], "model": r.get("model"), "n": r["n"], "desc": r["desc"]},
+        "c17": {"case": case_id, "chunk": chunk, "sums": r["sums"], "model": r.get("model"), "n": r["n"], "desc": r["desc"], "decay_worst": r.get("decay_worst"), "decay_points": r.get("decay_points", 0)},
         "sim_ns": case["T"] * r["n"],
         "faults": {"seeded_jump_schedules": r["n"]},
         "skipped": r.get("skipped"),
@@ -302,7 +351,9 @@ def judge_cases(results: list[dict], seed: int) -> tuple[list[dict], dict]:
                     "scenario": desc, "replay_info": {"case": cid, "seed": seed, "K": K},
                 })
                 break
-    notes = {"comparisons": ncmp, "calibration_max_abs_deviation": worst, "max_confidence_radius": max(widths) if widths else None, "bias_allowance": BIAS, "cases_with_all_chunks": completed, "mean_vs_model_samples": samples}
+    dw = [c.get("decay_worst") for r_ in results for c in [r_.get("c17") or {}] if c.get("decay_worst") is not None]
+    notes_decay = {"no_jump_decay_points_compared": sum(int((r_.get("c17") or {}).get("decay_points", 0) or 0) for r_ in results), "no_jump_decay_max_abs_deviation": max(dw) if dw else None, "no_jump_decay_tolerance": DECAY_TOL}
+    notes = {**notes_decay, "comparisons": ncmp, "calibration_max_abs_deviation": worst, "max_confidence_radius": max(widths) if widths else None, "bias_allowance": BIAS, "cases_with_all_chunks": completed, "mean_vs_model_samples": samples}
     return V, notes
 
 
